@@ -145,6 +145,21 @@ def build_app(track=None):
         rq = app.request
         return 'cookies=%r' % ((sorted(rq.cookies.items()), rq.get_cookie('sid'), rq.get_cookie('theme')),)
 
+    # a route hook that hands the handler an argument when the visitor is known
+    def greet_hook(prefix):
+        who = app.request.get_cookie('user')
+        if who:
+            app.request.url_args['user'] = who
+    app.on_route('/greet', greet_hook)
+
+    @app.route('/greet')
+    def greet(user='stranger'):
+        return 'hello ' + user
+
+    @app.route('/files/<:re:.+>')
+    def anon_files(*a):
+        return 'file listing'
+
     @app.route('/peek')
     def peek():
         # a request without a body has no form fields, whatever was posted before
@@ -220,6 +235,9 @@ def kinds():
         'chunked_urlform': lambda m: dict(method='POST', path='/form', qs='m=' + m, content_type='application/x-www-form-urlencoded', chunked=True, content_length=None,
                                           stream=b'4\r\na=' + m.encode()[:1] + b'x\r\n' + b'%x\r\n' % (len(m) + 4) + m.encode() + b'&b=2\r\n0\r\n\r\n'),
         'peek': lambda m: dict(method='GET', path='/peek', qs='m=' + m),
+        'greet_known': lambda m: dict(method='GET', path='/greet', headers={'Cookie': 'user=' + m}),
+        'greet_stranger': lambda m: dict(method='GET', path='/greet', qs='m=' + m),
+        'anon_wildcard_path': lambda m: dict(method='GET', path='/files/' + m + '/x.txt'),
         # bodies over the in-memory threshold, of a size that differs between the variants (a longer one before a shorter one)
         'spilled_echo': lambda m: dict(method='POST', path='/echo', qs='m=' + m, body=(m + '-private-').encode() * (14 + len(m))),
         # a Cookie header with an illegal name after a legal pair (the whole header is dropped), then well-formed ones
@@ -234,7 +252,7 @@ def kinds():
 
 VARIANTS = ['A1', 'B22xx']      # different lengths: pages that embed the URL differ in size
 SUCCESS = {'ok', 'plain', 'raise', 'head', 'gen', 'form', 'urlform', 'signed', 'goodjson', 'gen_cookie', 'file', 'file_wrapped', 'file_wrapped_head', 'session', 'ok_http10',
-           'chunked_urlform', 'peek', 'spilled_echo', 'cookies_bad', 'cookies_ok', 'form_repeated'}
+           'chunked_urlform', 'peek', 'spilled_echo', 'cookies_bad', 'cookies_ok', 'form_repeated', 'greet_known', 'greet_stranger', 'anon_wildcard_path'}
 SHARED_ERR = {'badchunk', 'badmultipart', 'oversized', 'noname_part', 'badjson_json', 'badchunk_json', 'oversized_json', 'cutmp_in_closing_delimiter', 'cutmp_in_first_delimiter'}
 
 
